@@ -86,3 +86,27 @@ V("c15-cc-adj", "C15", "fire", UT, "to_visit = (to_visit | neighbors(j, A)) - vi
 V("c15-silent-sep-guard", "C15", "silent", UT, "if len(A & B) or len(A & S) or len(B & S):", "if len(S & A) > 0 or (B & A) != set() or len(B & S) >= 1:", what="equivalent guard spellings")
 V("c15-silent-pa-spelling", "C15", "silent", UT, "return set(np.where(np.logical_and(A[:, i] != 0, A[i, :] == 0))[0])",
   "incoming = A[:, i] != 0\n    outgoing = A[i, :] != 0\n    return set(np.where(incoming & ~outgoing)[0])", what="pa via temporaries and operators")
+
+# ------------------------------------------------------------------------------- C16
+V("c16-onlydir-binarised", "C16", "fire", UT, "    mask = np.logical_and(P != 0, P.T == 0)\n    G = np.zeros_like(P)\n    # set to the same values in case P is a weight matrix and there is\n    # interest in maintaining the weights\n    G[mask] = P[mask]",
+  "    mask = np.logical_and(P != 0, P.T == 0)\n    G = np.zeros_like(P)\n    G[mask] = 1", rule="PW.table", what="only_directed loses the weights")
+V("c16-onlyund-or", "C16", "fire", UT, "mask = np.logical_and(P != 0, P.T != 0)", "mask = np.logical_or(P != 0, P.T != 0)", rule="PW.table", what="only_undirected keeps directed edges too")
+V("c16-skeleton-oneway", "C16", "fire", UT, "return ((A + A.T) != 0).astype(int)", "return (A != 0).astype(int)", rule="PW.table", what="skeleton not symmetric")
+V("c16-skeleton-sum-positive", "C16", "fire", UT, "return ((A + A.T) != 0).astype(int)", "return ((A + A.T) > 0).astype(int)", rule="PW", what="skeleton drops negative weights", accept_inconclusive=True)
+V("c16-undirected-both", "C16", "fire", UT, "undirected_edges = filter(lambda e: e[0] > e[1], zip(fro, to))", "undirected_edges = filter(lambda e: e[0] != e[1], zip(fro, to))", rule="PW.table",
+  what="each undirected edge listed twice", accept_inconclusive=True)
+V("c16-directed-transposed", "C16", "fire", UT, "    fro, to = np.where(only_directed(A))\n    return list(zip(fro, to))", "    fro, to = np.where(only_directed(A))\n    return list(zip(to, fro))", rule="PW.table", what="edge list reversed")
+V("c16-weights-transposed", "C16", "fire", UT, "weights = [W[i, j] for i, j in edges]", "weights = [W[j, i] for i, j in edges]", rule="PW.table", what="edge weights read transposed", accept_inconclusive=True)
+V("c16-induced-rows-only", "C16", "fire", UT, "    mask = np.logical_and(mask, mask.T)\n    subgraph = np.zeros_like(G)", "    subgraph = np.zeros_like(G)", rule="PW.table", what="induced subgraph keeps rows of S only")
+V("c16-isclique-half", "C16", "fire", UT, "return no_edges == n * (n - 1)", "return no_edges == n * (n - 1) / 2", rule="PW.count", what="clique closed form off by 2")
+V("c16-iscomplete-plus", "C16", "fire", UT, "return no_edges == (p * (p - 1) / 2)", "return no_edges == (p * (p + 1) / 2)", rule="PW.count", what="wrong closed form")
+V("c16-degrees-outdeg", "C16", "fire", UT, "return np.sum(skeleton(A), axis=0)", "return np.sum(A != 0, axis=0)", rule="PW.count", what="degrees = in-degree")
+V("c16-vs-axis1", "C16", "fire", UT, "colliders = np.where((dir_A != 0).sum(axis=0) > 1)[0]", "colliders = np.where((dir_A != 0).sum(axis=1) > 1)[0]", rule="VS.prefilter", what="pre-filter counts children")
+V("c16-vs-gt2", "C16", "fire", UT, "colliders = np.where((dir_A != 0).sum(axis=0) > 1)[0]", "colliders = np.where((dir_A != 0).sum(axis=0) > 2)[0]", rule="VS.prefilter", what="pre-filter needs three parents")
+V("c16-vs-shield-oneway", "C16", "fire", UT, "if A[i, j] == 0 and A[j, i] == 0:", "if A[i, j] == 0:", rule="VS.condition", what="shield test one-directional")
+V("c16-vs-noorder", "C16", "fire", UT, "vstruct = (i, c, j) if i < j else (j, c, i)", "vstruct = (i, c, j)", rule="VS.condition", what="triple not normalised", accept_inconclusive=True)
+V("c16-vs-adj-parents", "C16", "fire", UT, "for (i, j) in itertools.combinations(pa(c, A), 2):", "for (i, j) in itertools.combinations(adj(c, A), 2):", rule="VS.pairs", what="pairs of adjacent nodes")
+V("c16-moral-oneway", "C16", "fire", UT, "        moral[i, j] = 1\n        moral[j, i] = 1\n", "        moral[i, j] = 1\n", rule="MORAL", what="married parents one direction")
+V("c16-silent-vs-min-max", "C16", "silent", UT, "vstruct = (i, c, j) if i < j else (j, c, i)", "vstruct = (min(i, j), c, max(i, j))", what="equivalent normalisation")
+V("c16-silent-vs-ge2", "C16", "silent", UT, "colliders = np.where((dir_A != 0).sum(axis=0) > 1)[0]", "n_parents = (dir_A != 0).sum(axis=0)\n    colliders = np.where(n_parents >= 2)[0]", what="equivalent pre-filter")
+V("c16-silent-skeleton-or", "C16", "silent", UT, "return ((A + A.T) != 0).astype(int)", "return np.logical_or(A != 0, A.T != 0).astype(int)", what="skeleton via logical_or")
